@@ -10,8 +10,8 @@ META = {
                    "patterns with the documented grammar (RX1); alphabet facts that make name.task[.version] uniquely decodable "
                    "(RX2); print/parse tables (RT-P); resolution of ':name' against the listing COND file's directory (REL1); "
                    "__eq__/__hash__ agreement (HASH1); combine() rejects dependencies whose names coincide, because its entries are "
-                   "named by task name alone (CB3).",
-    "rules": ["RX1", "RX2", "RT-P", "REL1", "HASH1", "CB3"],
+                   "named by task name alone (CB3). cond gc parses output-directory names with exactly the grammar they are created with (RX1 on gc's patterns, GC1/GC2).",
+    "rules": ["RX1", "RX2", "RT-P", "REL1", "HASH1", "CB3", "GC1", "GC2", "RX1(gc)"],
     "assumptions": ["re._parser's AST is the engine's semantics (cross-checked on the witnesses in the engine self-check)"],
     "trusted": ["ast parser", "re._parser", "constant folder"],
     "technique": "static analysis: regex AST → symbolic-alphabet DFA language equivalence, plus AST agreement rules",
@@ -183,3 +183,6 @@ def run(A, rep, tier):
     # dependencies with the same name (from different directories) must be rejected
     from . import combine as CB
     CB.rule_cb3(A, rep)
+    # gc maps directory names back to identifiers: its two patterns must describe exactly the names Conductor creates
+    from . import fs as FSM
+    FSM.rule_gc(A, rep)
